@@ -438,3 +438,15 @@ V("c12-purefock-copy-shares-vector", "C12", {"rule": "C12b", "contains": "copy"}
   ("piquasso/_simulators/fock/pure/state.py", "        state.state_vector = self._connector.np.copy(self.state_vector)", "        state.state_vector = self.state_vector"))
 V("c12-instruction-copy-shallow", "C12", {"rule": "C12b", "contains": "copy"},
   ("piquasso/core/_mixins.py", "        return copy.deepcopy(self)", "        return copy.copy(self)"))
+V("c07-passive-C-update-no-conj", "C07", {"rule": "C07e", "contains": "_apply_passive_linear_to_C_and_G"},
+  (GSS, "        state._C, index, T.conjugate() @ state._C[index] @ T.transpose()", "        state._C, index, T @ state._C[index] @ T.transpose()"))
+V("c07-active-G-update-term-dropped", "C07", {"rule": "C07e", "contains": "_apply_linear_to_C_and_G"},
+  (GSS, "        + P @ (original_C.transpose() + np.identity(len(modes))) @ A.transpose()", "        + P @ original_C.transpose() @ A.transpose()"))
+V("c07-mean-update-no-conj", "C07", {"rule": "C07e", "contains": "_apply_linear"},
+  (GSS, "    active_part = active_block @ np.conj(state._m[modes,])", "    active_part = active_block @ state._m[modes,]"))
+V("c07-aux-blocks-swapped", "C07", {"rule": "C07e", "contains": "auxiliary"},
+  (GSS, "        P.conjugate() @ auxiliary_C + A.conjugate() @ auxiliary_G,", "        P.conjugate() @ auxiliary_G + A.conjugate() @ auxiliary_C,"))
+V("c07-aux-fill-no-conj", "C07", {"rule": "C07e", "contains": "hermitian fill"},
+  (GSS, "        state._C, assign_index, np.conj(state._C[modes, :]).transpose()", "        state._C, assign_index, state._C[modes, :].transpose()"))
+V("c07-preserving-transposed-rewrite", "C07", "silent",
+  (GSS, "    state._G = connector.assign(state._G, index, T @ state._G[index] @ T.transpose())", "    state._G = connector.assign(state._G, index, (T @ state._G[index].transpose() @ T.transpose()).transpose())"))
